@@ -70,10 +70,10 @@ CLAIMED = {
 		note='reachability through attrs axiomatised by its unfolding plus a height function; dict iteration as an abstract list; deserialize assumed; acyclic key graph / type-entry invariants are preconditions validated natively by the twin',
 		ref='DESIGN.md §4 C14, §9'),
 	'C15': dict(
-		level='exploration',
-		text='Bounded stand-in only: the contract V(EntryOfLark(loads(json(dumps(T))))) == V(EntryOfLark(T)) is evaluated at run time on every lark tree up to 4 (5) nodes over an alphabet that contains the corner cases (multi-line tokens, unset/zero positions, empty meta, None placeholders, childless trees) and on real parse trees. Nothing is counted as proved: the two recursive functions work on third-party lark objects and heterogeneous dicts that the VC subset cannot carry without replacing most statements by assumed readings.',
-		note='bounded (exhaustive to the stated size); lark object semantics and the JSON round trip trusted',
-		ref='DESIGN.md §4 C15'),
+		level='proof',
+		text='Proved over lark entries and stored entries as opaque identities with observers: EntryOfLark.source_map reports the recorded span when it is usable and (0,0)-(0,0) otherwise; Serialization.__dumps produces the stored form of an entry (name, value, the span the view reports, children pointwise, None slots); Serialization.__loads builds an entry carrying exactly the stored data (every meta / token position assignment is the real statement); and by induction over the tree (lemma_roundtrip) the entry loaded from the stored form of e looks the same through EntryOfLark as e (name, emptiness, children, value, source map at every node). The same statement on real lark objects through the JSON text is a labelled bounded twin (exhaustive for small trees, real parse trees), which also validates the observer reading of the lark classes.',
+		note='lark.Tree / Token / Meta semantics as observers and constructors (assumed, validated by the twin); unset token positions read as 0; JSON plumbing assumed; finite trees',
+		ref='DESIGN.md §4 C15, §9'),
 	'C16': dict(
 		level='proof',
 		text='Token.SourceMap.make is proved to record, for every source and 0 <= begin <= end <= len, exactly the standard (line, column) of both offsets (counting/rfind lemmas by induction); Quotation.__cause_range and __build_line_mark are proved to mark columns [begin, end) of the reported line. Spans produced by the parser are assumed; survival through the cache encoding is a bounded stand-in shared with C15.',
